@@ -68,6 +68,45 @@ def lewis_motif(heavy, orders):
     return "plain"
 
 
+CORONENE_SRC = """
+import sys, resource
+cap = int(float(sys.argv[1]) * 2**30)
+resource.setrlimit(resource.RLIMIT_AS, (cap, cap))
+import numpy as np
+from rdkit import Chem
+from stereomolgraph.algorithms.bond_orders import connectivity2bond_orders
+m = Chem.AddHs(Chem.MolFromSmiles("c1cc2ccc3ccc4ccc5ccc6ccc1c1c2c3c4c5c61"))
+els = [a.GetAtomicNum() for a in m.GetAtoms()]
+ac = np.array(Chem.GetAdjacencyMatrix(m), dtype=int)
+try:
+    bo, ch, un = connectivity2bond_orders(els, ac)
+    vals = [int(x) for x in np.array(bo).sum(axis=1)]
+    ok = all(v == (4 if e == 6 else 1) for v, e in zip(vals, els)) and not any(un)
+    print("RESULT", "ok" if ok else "wrong")
+except MemoryError:
+    print("RESULT MemoryError")
+except Exception as e:
+    print("RESULT", type(e).__name__)
+"""
+
+
+def coronene(rep):
+    """coronene (24 sp2 carbons): the pair enumeration materialises C(30,12) = 86 million bond combinations"""
+    import os
+    import subprocess
+    import sys
+    try:
+        p = subprocess.run([sys.executable, "-c", CORONENE_SRC, "3"], capture_output=True, text=True, timeout=600, env=dict(os.environ))
+        out = [l for l in p.stdout.splitlines() if l.startswith("RESULT")]
+        res = out[-1].split(None, 1)[1] if out else "no-result"
+    except subprocess.TimeoutExpired:
+        res = "timeout"
+    if res != "ok":
+        rep.violation(f"C18|no-matrix|polycyclic-aromatic|coronene|{res}",
+                      f"connectivity2bond_orders on coronene (36 atoms): {res} (address space capped at 3 GB)", {"smiles": "coronene"})
+    return res
+
+
 def as_int_matrix(bo):
     out = []
     for row in np.array(bo):
@@ -188,6 +227,7 @@ def run(tier):
                          "charges": [rm.GetAtomWithIdx(i).GetFormalCharge() for i in range(n)],
                          "unpaired": [rm.GetAtomWithIdx(i).GetNumRadicalElectrons() for i in range(n)], "lewis": True, "lowest": False,
                          "src": f"{name}|order{k}|to_rdmol"})
+    coronene_result = coronene(rep)
     # observation (not part of C18 as written): bond orders above three, e.g. the S-S bond of a disulfide comes out with
     # order five because S(VI) is tried before S(II); every atom still has a standard valence
     high = sorted({r["src"].split("|")[0] for r in recs if r["lewis"] and any(x > 3 for row in r["bo"] for x in row)})
@@ -211,7 +251,7 @@ def run(tier):
         "rule": "structural: (connectivity matrix, element list) cases from MC_BondOrd; chemical: corpus molecules certified by "
                 "RDKit x atom orders x {direct call, to_rdmol with shuffled identifiers}; every record decided by Obs_BondOrd; "
                 "distinct_nontrivial = structural cases + certified molecules",
-        "structural_cases": n_struct, "constructed_lewis_cases": n_lewis, "constructed_lewis_structures": len(lewis_keys), "certified_molecules": sorted(names), "records": len(recs), "accepted": len(ok),
+        "coronene": coronene_result, "structural_cases": n_struct, "constructed_lewis_cases": n_lewis, "constructed_lewis_structures": len(lewis_keys), "certified_molecules": sorted(names), "records": len(recs), "accepted": len(ok),
         "samples": [recs[0] if recs else "none", recs[-1]["src"] if recs else "none"],
     }
     return rep.finish("exploration", cov, [
